@@ -1,6 +1,6 @@
 SPECIFICATION Spec
-CONSTANTS MaxLen = 6
-          Fuel = 8
+CONSTANTS MaxLen = 8
+          Fuel = 10
           Variant = "current"
 INVARIANTS NoBad PsLive ChainLive AllClosedAtEnd LoopsEnclose LevelIsDepth
 CHECK_DEADLOCK FALSE
